@@ -54,6 +54,17 @@ def tname(t: Any) -> str:
 
 
 # =============================================================================== harness
+class _Junk:
+    pass
+
+
+def _scribble(types: Any) -> None:
+    """The caller re-uses its `types` list for something else right after the call (the
+    library must have taken what it needs, not kept the caller's list)."""
+    if isinstance(types, list):
+        types[:] = [_Junk]
+
+
 BAD_TDS: dict[str, Any] = {
     "three": lambda: 3,
     "zero": lambda: 0,
@@ -311,6 +322,7 @@ class H:
             sim.log("add_end", ctx=tgt, res="error", cls=type(e).__name__)
         else:
             sim.log("add_end", ctx=tgt, res="ok")
+        _scribble(typearg)
 
     def make_factory(self, spec: dict) -> Any:
         sim = self.sim
@@ -425,6 +437,7 @@ class H:
             sim.log("fac_end", ctx=tgt, res="error", cls=type(e).__name__)
         else:
             sim.log("fac_end", ctx=tgt, res="ok")
+        _scribble(kwargs.get("types"))
         # probe the keys the call asked for without generating anything the model does not
         # expect: the oracle decides from the model whether each probe should have missed
         for t in spec["types"]:
